@@ -84,3 +84,35 @@ pub fn catch<R>(f: impl FnOnce() -> R) -> Result<R, String> {
 pub fn quiet_panics() {
     std::panic::set_hook(Box::new(|_| {}));
 }
+
+/// All merges of per-thread op-id sequences that preserve each thread's program order.
+pub fn merges(threads: &[Vec<usize>]) -> Vec<Vec<usize>> {
+    fn rec(pos: &mut Vec<usize>, threads: &[Vec<usize>], cur: &mut Vec<usize>, out: &mut Vec<Vec<usize>>) {
+        let mut any = false;
+        for t in 0..threads.len() {
+            if pos[t] < threads[t].len() {
+                any = true;
+                cur.push(threads[t][pos[t]]);
+                pos[t] += 1;
+                rec(pos, threads, cur, out);
+                pos[t] -= 1;
+                cur.pop();
+            }
+        }
+        if !any {
+            out.push(cur.clone());
+        }
+    }
+    let mut out = Vec::new();
+    rec(&mut vec![0; threads.len()], threads, &mut Vec::new(), &mut out);
+    out
+}
+
+/// NaN-canonical bit pattern of an f64 (all NaNs compare equal, -0.0 and 0.0 stay distinct).
+pub fn fbits(v: f64) -> u64 {
+    if v.is_nan() {
+        0x7ff8_0000_0000_0000
+    } else {
+        v.to_bits()
+    }
+}
